@@ -509,7 +509,7 @@ def main():
     t0 = time.time()
     tier = common.get_tier()
     H()
-    tmo = 240000 if tier == "quick" else 900000
+    tmo = 600000 if tier == "quick" else 1200000
     obs = [common.Ob("_n_leading_zeros64 == clz64 for all 2^64 inputs", ob_nlz, (tmo,), hard_s=tmo / 1000 + 60, bounds={"x": "all uint64"}),
            common.Ob("_add == documented register update (symbolic p in 7..16, hash, seed, registers)", ob_add_spec, (tmo,), hard_s=tmo / 1000 * 4 + 60, bounds={"p": "7..16 symbolic", "registers": "arbitrary (z3 Array)"}),
            common.Ob("_add: commutes / idempotent on the kernel (two symbolic hashes)", ob_add_algebra, (tmo,), hard_s=tmo / 1000 * 4 + 60, bounds={"p": "7..16 symbolic"}),
